@@ -510,7 +510,7 @@ Proof.
   rewrite mvmul_r_eq, rotNd_r_eq, !n2_r_eq.
   revert NZ. destruct q as [w x y z], v as [a b c]. unf. unfold rotNd. cbv zeta.
   cbn [qw qx qy qz vx vy vz m00 m01 m02 m10 m11 m12 m20 m21 m22]. intros NZ.
-  conj; field; assumption.
+  conj; field; conj; first [assumption | intros Z; apply NZ; rewrite <- Z; ring].
 Qed.
 
 Lemma apply_parts_r_eq q v : ~ n2 q == 0 -> apply_parts_r (rot_parts_r q) v =v= mvmul (rot_impl q) v.
